@@ -16,6 +16,7 @@ import (
 	"encoding/json"
 	"fmt"
 	"os"
+	"sync"
 )
 
 type mismatch struct {
@@ -26,11 +27,14 @@ type mismatch struct {
 }
 
 type sink struct {
+	mu   sync.Mutex
 	enc  *json.Encoder
 	seen map[string]int
 }
 
 func (s *sink) report(n int, key, class, detail string) {
+	s.mu.Lock()
+	defer s.mu.Unlock()
 	s.seen[class]++
 	if s.seen[class] > 25 { // enough examples of one class
 		return
